@@ -298,7 +298,13 @@ func WorkerLoop(p *Plan, prop string, seed uint64, shard, nshard int, out string
 			t = Minimise(p, t, findings)
 		}
 		rep.Violations = append(rep.Violations, t)
-		return len(rep.Violations) >= 3
+		maxv := 3
+		if s := os.Getenv("VERIF_MAXVIOL"); s != "" {
+			if n, err := strconv.Atoi(s); err == nil {
+				maxv = n
+			}
+		}
+		return len(rep.Violations) >= maxv
 	}
 	// determinism self-test support: cap the runs and write one digest line per run
 	var digest *os.File
